@@ -79,7 +79,10 @@ RULE = ("(1) every hierarchy of N<=5 (quick) / N<=6 (thorough) classes where cla
         "([int] / [T]) when the base is generic; Generic[T] / typing.Generic[T] (last, rarely elsewhere) and explicit object (last, rarely first) bases; members "
         "own or imported into the class body; 30% of the programs end with a scope puzzle (a module-level class R, a holder HA with a nested class "
         "also named R, a holder HB(HA) whose nested class derives from the bare name R, a sibling deriving from that one by its bare name), 35% come "
-        "with .pyi files next to their modules whose class statements drop a base or reorder the bases; each program is checked class by class on "
+        "with .pyi files next to their modules whose class statements drop a base or reorder the bases, 30% of the multi-module programs end with an "
+        "imported name bound again by a class statement of the importing module (`from lib import K` ... `class K(lib.K)`) and classes deriving from the "
+        "local class by that name; every class is also read THROUGH up to 8 aliases of the program (from-imports, re-exports, renamed imports): MRO, "
+        "inherited members, and the `inherited` flag / path / final target of every entry of all_members and [] must be the class's own; each program is checked class by class on "
         "FOUR trees -- freshly visited, dumped with as_json (base and full) and reloaded with from_json into a fresh collection, visited and merged "
         "with the stubs, inspected (force_inspection) -- against the model, the real import and type(); corpus/C07/programs.json first; "
         "(9) alias mazes: 3 modules whose names are bound by random import-from chains incl. cycles, self-imports, dangling and out-of-package "
@@ -1209,6 +1212,23 @@ def gen_program(rng, tag, gaps=True):
         classes.append(plain(j, hid + 1, bs, hbase=hid))                                                                            # HB(HA).K(R)
         if rng.random() < 0.5:
             classes.append(plain(j, hid + 1, [spec(k + 2)] + ([spec(k + 1)] if rng.random() < 0.3 else []), hbase=hid))               # a sibling deriving from it by its bare name
+    if len(names) >= 2 and rng.random() < 0.3:
+        # an imported name bound again by a class statement of the importing module (`from lib import Handler` ... `class Handler(...)`),
+        # and classes deriving from the LOCAL class by that name
+        j = len(names) - 1
+        cands = [x for x, c in enumerate(classes) if c["mod"] < j and c["holder"] is None]
+        if cands:
+            b = rng.choice(cands)
+            def spec2(x, style=None):
+                return {"b": x, "style": style or rng.choice(XSTYLES2), "sub": None, "assign": 0, "form": "plain"}
+            def plain2(bases, **kw):
+                return {"mod": j, "holder": None, "bases": bases, "generic": None, "object": None,
+                        "members": random_members(rng), "amembers": [], **kw}
+            k = len(classes)
+            classes.append(plain2([spec2(b, rng.choice(["import-as", "import-dotted"]))] if rng.random() < 0.6 else [], rename=b))
+            classes.append(plain2([spec2(k)] + ([spec2(b)] if rng.random() < 0.4 else [])))
+            if rng.random() < 0.5:
+                classes.append(plain2([spec2(k + 1), spec2(k)] if rng.random() < 0.5 else [spec2(k + 1)]))
     prog = {"pkg": f"c07g{tag}", "mods": names, "classes": classes}
     if rng.random() < 0.35:
         # .pyi files next to the modules: same classes, but the stubs simplify the hierarchy (a base left out, bases reordered)
@@ -1264,14 +1284,22 @@ def render_program(prog):
     # a nested class may carry the name of a module-level class of its module (`shadow`): only as the last class of its holder, when
     # that class stands before the holder, and when neither it nor a sibling derives from that class (Griffe's scopes are flow-insensitive)
     cname = []
+    rebound = {}
     for i, c in enumerate(classes):
         r = c.get("shadow")
         ok = r is not None and c["holder"] is not None and 0 <= r < i and classes[r]["mod"] == c["mod"] and classes[r]["holder"] is None
         if ok:
             run = [x for x in range(n) if classes[x]["mod"] == c["mod"] and classes[x]["holder"] == c["holder"]]
             ok = run[-1] == i and r < run[0] and not any(bb["b"] == r for x in run for bb in classes[x]["bases"])
+        rn = c.get("rename")
+        if (not ok and rn is not None and c["holder"] is None and 0 <= rn < i and classes[rn]["holder"] is None
+                and classes[rn]["mod"] < c["mod"] and (c["mod"], rn) not in rebound and not classes[rn].get("rename")):
+            # a module-level class published under the name of a class imported from an earlier module
+            rebound[(c["mod"], rn)] = i
+            cname.append(f"K{rn}")
+            continue
         cname.append(f"K{r}" if ok else f"K{i}")
-    top = [f"H{c['holder']}" if c["holder"] is not None else f"K{i}" for i, c in enumerate(classes)]
+    top = [f"H{c['holder']}" if c["holder"] is not None else cname[i] for i, c in enumerate(classes)]
     cpath = [P[c["mod"]] + ([f"H{c['holder']}"] if c["holder"] is not None else []) + [cname[i]] for i, c in enumerate(classes)]
     heap_mod = {j: [] for j in range(len(mods))}       # explicit entries of module j, in first-match order
     heap_by_mod = {}
@@ -1299,6 +1327,10 @@ def render_program(prog):
         jb = classes[b]["mod"]
         Pm, t = P[jb], top[b]
         dotted = ".".join(Pm)
+        if (j, b) in rebound and style in ("from", "reexport", "wildcard", "relative"):
+            style = "import-as"        # module j binds this very name again: the imported class is named through its module
+        if style == "reexport" and t != f"K{b}" and classes[b]["holder"] is None:
+            style = "from"             # two classes of one name cannot both be re-exported by the top __init__
         if style == "relative":
             if package_of(j) == Pm and j != jb:
                 add_import(j, f"from . import {t}", [[P[j] + [t], ["alias", Pm + [t]]]])
@@ -1391,7 +1423,7 @@ def render_program(prog):
             if levels and form == "rebind" and not nested_i:
                 # `Base = K1; class C(Base); Base = K2`: the collection keeps the last binding (residual shape (c))
                 others = [r for r in range(i) if r != b and classes[r]["mod"] == j and classes[r]["holder"] is None]
-                other = f"K{others[-1]}" if others else f"K{i}"
+                other = cname[others[-1]] if others else cname[i]
                 post.append(f"{first_value[0][-1]} = {other}")
                 patch.append([first_value[0], first_value[1]])
                 first_value[1] = ["attr", ["n", other]]
@@ -1445,7 +1477,10 @@ def render_program(prog):
             if hb_ok:
                 styles.append("holder-with-base")
         open_holder[j] = c["holder"]
-        if cname[i] != f"K{i}":
+        if cname[i] != f"K{i}" and not nested:
+            add_import(j, f"from {'.'.join(P[classes[c['rename']]['mod']])} import {cname[i]}", [])
+            styles.append("imported-name-bound-again-by-a-class")
+        elif cname[i] != f"K{i}":
             styles.append("nested-class-named-like-a-module-level-class")
         lines.append(f"{ind}class {cname[i]}({', '.join(texts)}):" if texts else f"{ind}class {cname[i]}:")
         heap_mod[j].append([cpath[i], ["cls", i]])
@@ -1731,8 +1766,61 @@ def eval_program(ctx, prog, root, mout, inspected=True, stream="program", trees=
                     finding = "C07-F1"
                 fails.append((case, d, finding))
 
+    def check_alias_views(getter, agent):
+        """The same classes reached THROUGH an alias (re-export, `from ... import`, `import ... as` + attribute): MRO, inherited members and the
+        `inherited` flag of every entry of all_members / [] must be those of the class, under the alias's own path."""
+        ids = {p: i for i, p in enumerate(paths)}
+        seen_views = 0
+        for hp, kind in R["heap"]:
+            if kind[0] != "alias" or seen_views >= 8:
+                continue
+            try:
+                al = getter(".".join(hp))
+                if not al.is_alias or not al.final_target.is_class or al.final_target.path not in ids:
+                    continue
+            except Exception:  # noqa: BLE001   dangling / external aliases are not views of a class
+                continue
+            c = ids[al.final_target.path]
+            o = orc[c]
+            if o is None:
+                continue
+            seen_views += 1
+            ctx.count("alias_views")
+            case = {**base_case, "class": c, "agent": agent, "through_alias": al.path}
+            try:
+                with watchdog():
+                    try:
+                        got_mro = [k.path for k in al.mro()]
+                    except ValueError:
+                        got_mro = None
+                    got = sorted([name, bool(m.is_alias and m.inherited), m.path, (m.final_target.path if (m.is_alias and m.inherited) else None),
+                                  bool(al[name].is_alias and al[name].inherited)] for name, m in al.all_members.items())
+                    got_inh = sorted(al.inherited_members)
+            except BaseException as e:  # noqa: BLE001
+                if isinstance(e, KeyboardInterrupt):
+                    raise
+                if o["mro"] is not None and not gap_F1(pb, orc, c):
+                    fails.append((case, {"what": "members of a class reached through an alias raised", "griffe": f"{type(e).__name__}: {e}"}, None))
+                continue
+            canon = observe2(objs_by_agent[agent][c])
+            if (canon["mro"] != ["ok", got_mro] and not (canon["mro"][0] == "err" and got_mro is None)) or "all" not in canon:
+                if "all" in canon:
+                    fails.append((case, {"what": "Alias.mro() differs from the class's", "alias": got_mro, "class": canon["mro"]}, None))
+                continue
+            # against the class itself (already compared with CPython): same names, same flags, same final targets, paths under the alias
+            want = sorted([e[0], e[1] == "inherited", f"{al.path}.{e[0]}",
+                           (dict(canon.get("inherited_final") or []).get(e[0]) if e[1] == "inherited" else None), e[1] == "inherited"] for e in canon["all"])
+            if got != want:
+                fails.append((case, {"what": "all_members / [] of a class reached through an alias: names, `inherited` flags, paths or final targets differ from the class's own",
+                                     "alias": got, "class": want}, None))
+            elif got_inh != sorted(e[0] for e in canon["all"] if e[1] == "inherited"):
+                fails.append((case, {"what": "inherited_members of a class reached through an alias differ from the class's own", "alias": got_inh}, None))
+
+    objs_by_agent = {}
     if "visitor" in trees:
         check_tree(objs, "visitor", True)
+        objs_by_agent["visitor"] = objs
+        check_alias_views(lambda p: loaded[p[len(pkg) + 1:]], "visitor")
     # ---- the tree dumped to JSON and reloaded into a fresh collection (what `griffe dump` consumers query)
     if "json" in trees:
         for full in (False, True):
@@ -2042,8 +2130,9 @@ def prog_variants(prog, keep):
                 continue
             bs = [{**b, "b": b["b"] - 1 if b["b"] > k else b["b"]} for b in c["bases"] if b["b"] != k]
             c2 = {**c, "bases": bs}
-            if c.get("shadow") is not None:
-                c2["shadow"] = None if c["shadow"] == k else (c["shadow"] - 1 if c["shadow"] > k else c["shadow"])
+            for fld in ("shadow", "rename"):
+                if c.get(fld) is not None:
+                    c2[fld] = None if c[fld] == k else (c[fld] - 1 if c[fld] > k else c[fld])
             new.append(c2)
         out = with_classes(new)
         if prog.get("stubs"):
@@ -2060,6 +2149,8 @@ def prog_variants(prog, keep):
             yield with_classes([{**x, "abc": None} if ii == i else x for ii, x in enumerate(cl)]), keep
         if c.get("shadow") is not None:
             yield with_classes([{**x, "shadow": None} if ii == i else x for ii, x in enumerate(cl)]), keep
+        if c.get("rename") is not None:
+            yield with_classes([{**x, "rename": None} if ii == i else x for ii, x in enumerate(cl)]), keep
         if c.get("hbase") is not None:
             yield with_classes([{**x, "hbase": None} if ii == i else x for ii, x in enumerate(cl)]), keep
         if c.get("holder") is not None:
